@@ -109,7 +109,7 @@ PROPS = {
         "extra_theorems": [("EdsProps.C15b", "C15_")],
         "level_text": "Metamorphic theorem C15_invalid_previous_irrelevant (+ _of_nodup, C15_kept_eq_filter_iff, C15_kept_count; EdsProps/C15b): a previously selected node that is listed but no longer fit has no influence on the outcome -- selectNodes equals selectNodes on the list without such names (needs only that no such name occurs more often in the list than there are such nodes, e.g. a duplicate-free list; the counterexample without it is proved as C15_invalid_previous_needs_hyp); evaluated on the real selectNodes as clause C15.invalid-previous-irrelevant. Lean theorems about the model of selectNodes: C15_distinct, C15_new_valid, C15_removed_only_unfit / C15_kept_prefix / C15_keep_order / C15_keep (still-valid nodes kept in order, additions after them), C15_short_iff / C15_never_exceeds / C15_reaches_request / C15_count (error iff short, never beyond the request through the controller's own choice), C15_percent / C15_request_resolved_against_targeted, C15_error_if_short / C15_reconcile_error (the reconcile returns an error and writes no status), C15_all_valid_if_listed (the complement of known finding F6a), C15_least_restarts (every added node has no more restarts than any listed fit node left out), C15_spread (anti-affinity quota) for every node population, pod restart history, replicas value, node selector, anti-affinity keys and previously selected list; the real selectNodes runs against a fake API server holding the nodes and pods and its result is compared with the model's and with the specification clauses (distinct, new-valid, keep, count, all-valid).",
         "level_note": TB + "Modelled by hand: selectNodes (restart-ordered candidates, anti-affinity quota, fitness). Go's sort.Slice is an insertion sort (stable) for <= 12 elements, which is what the stream uses; larger populations are compared up to the specification clauses only. The trigger (when the EDS reconcile calls selectNodes) is covered by the eds_reconcile stream.",
-        "streams": [("select_nodes", 3000, 60000), ("fitness", 1000, 20000), ("scenario", 30, 800), ("eds_reconcile", 2000, 30000)],
+        "streams": [("select_nodes", 3000, 60000), ("fitness", 1000, 20000), ("scenario", 30, 800)],
         "trusted_base": ["hand-written model of selectNodes tied by the select_nodes stream; label-selector conversion re-implemented in the model"],
         "assumptions": COMMON_ASSUME + ["node names are unique (API server)"],
     },
@@ -290,7 +290,7 @@ for _p in ("C01", "C02", "C04", "C05", "C11", "C12", "C13", "C15"):
     PROPS[_p]["trusted_base"] = PROPS[_p]["trusted_base"] + ["EdsModel/Cluster.lean (L3): the API server's effect of each write (apply functions) is modelled by hand and validated by the transition check of every scenario run (predicted world = world the next reconcile read)"]
 
 # the trigger of selectNodes and the stale-read cases live in eds_reconcile
-PROPS["C15"]["streams"] = PROPS["C15"]["streams"] + [("eds_reconcile", 1500, 30000)]
+PROPS["C15"]["streams"] = PROPS["C15"]["streams"] + [("eds_reconcile", 2500, 30000)]
 
 # C17's "reflected in the error the sync reports / in the conditions" is judged on whole syncs with faults
 PROPS["C17"]["streams"] = PROPS["C17"]["streams"] + [("ers_reconcile", 1500, 30000)]
@@ -300,3 +300,25 @@ PROPS["C17"]["streams"] = PROPS["C17"]["streams"] + [("ers_reconcile", 1500, 300
 PROPS["C06"]["streams"] = PROPS["C06"]["streams"] + [("ers_reconcile", 2000, 40000)]
 PROPS["C19"]["streams"] = PROPS["C19"]["streams"] + [("ers_reconcile", 1500, 30000)]
 PROPS["C19"]["adopt"] = list(PROPS["C19"].get("adopt", [])) + ["C06"]
+
+# seventh wave (C05-g): the Canary-Failed mark is the only memory of a failure; a replica-set sync that
+# wipes it (in any role) re-opens promotion by elapsed time.  C05 therefore runs the replica-set
+# reconcile and answers for the C07 clause "failed mark kept".
+PROPS["C05"]["streams"] = list(PROPS["C05"]["streams"]) + [("ers_reconcile", 1200, 20000)]
+PROPS["C05"]["adopt"] = list(PROPS["C05"].get("adopt", [])) + ["C07"]
+
+# ---- seventh round: sync-level theorems behind the clauses added after the sixth / seventh seed waves ----
+# EdsProps/C10c: no pod is replaced spuriously by a whole sync (active and canary role)
+# EdsProps/C08c: pause / freeze at the level of the whole sync; replica-set annotations never pause or freeze
+# EdsProps/C12c: the replica sets a written status names are the ExtendedDaemonSet's own (no adoption)
+MORE7 = {
+    "C10": [("EdsProps.C10c", "C10_")],
+    "C02": [("EdsProps.C10c", "C10_sync_no_spurious_replace")],
+    "C08": [("EdsProps.C08c", "C08_")],
+    "C12": [("EdsProps.C12c", "C12_")],
+}
+for _p, _l in MORE7.items():
+    PROPS[_p]["extra_theorems"] = PROPS[_p].get("extra_theorems", []) + _l
+PROPS["C10"]["level_text"] += " Sync level (EdsProps/C10c): C10_sync_no_spurious_replace(_canary) -- every pod a whole replica-set sync deletes in order to update it is out of date for what the sync read (comparePod = false), hence C10_sync_up_to_date_kept."
+PROPS["C08"]["level_text"] += " Sync level (EdsProps/C08c): C08_sync_paused_no_update_delete, C08_sync_frozen_no_create, C08_sync_resume(_frozen) (the plan equals the plan without the annotation), C08_sync_ers_annotations_irrelevant (annotations carried by the replica set object never pause or freeze), C08_sync_flags_partial (written conditions = the ExtendedDaemonSet's current annotations, for a defaulted owner; the counterexample for a non-defaulted owner is proved)."
+PROPS["C12"]["level_text"] += " C12_no_adoption (EdsProps/C12c): the active / canary replica set named by a written status is a member of ownErs (namespace and name label), C12_foreign_never_named."
